@@ -1514,7 +1514,9 @@ impl fmt::Display for Expr {
                 for set in sets {
                     write!(f, "{sep}")?;
                     sep = ", ";
-                    if set.len() == 1 {
+                    // a single bare element stands for the one-element set; one that is itself
+                    // parenthesised needs the set's own parentheses to be read back as such
+                    if set.len() == 1 && !matches!(set[0], Expr::Nested(_) | Expr::Tuple(_)) {
                         write!(f, "{}", set[0])?;
                     } else {
                         write!(f, "({})", display_comma_separated(set))?;
@@ -1528,7 +1530,9 @@ impl fmt::Display for Expr {
                 for set in sets {
                     write!(f, "{sep}")?;
                     sep = ", ";
-                    if set.len() == 1 {
+                    // a single bare element stands for the one-element set; one that is itself
+                    // parenthesised needs the set's own parentheses to be read back as such
+                    if set.len() == 1 && !matches!(set[0], Expr::Nested(_) | Expr::Tuple(_)) {
                         write!(f, "{}", set[0])?;
                     } else {
                         write!(f, "({})", display_comma_separated(set))?;
